@@ -26,6 +26,7 @@ class Ctx:
         self.assumptions = set()
         self.counter = 0
         self.uf = {}
+        self.range_checks = []   # (exact real result, width) of rounded operations (R reading)
 
     def fresh(self, prefix, sort):
         self.counter += 1
@@ -143,6 +144,7 @@ def _round_real(t, w):
     if CTX.mode != 'R':
         return t
     u = 2.0 ** -24 if w == 32 else 2.0 ** -53
+    CTX.range_checks.append((t, w))
     d = CTX.fresh('delta', z3.RealSort())
     ur = realval(u)
     CTX.pending.append(z3.And(d >= -ur, d <= ur))
